@@ -39,7 +39,8 @@ LEVEL_TEXT = ("Exploration: thousands of collinear trees (chains of 2-40 nodes, 
               " Levels are also numpy integers / 0-d arrays; a failing get_volume call on an un-rebased table precedes a third of the measurements."
               " Trees derived by the library from used ones (levels 1-2); lines exactly along lattice diagonals."
               " Feature requests in tuple / list / dict spellings."
-              " Pointed roots and inner nodes (radius exactly 0).")
+              " Pointed roots and inner nodes (radius exactly 0)."
+              " Volumes of twins under custom column names and of a get_ndata-overriding subclass.")
 LEVEL_NOTE = ("Levels 5-9 on a root with two opposite arms run the library's sampled "
               "cone-cone term (identically zero there); only a few such cases run per shard because "
               "each costs seconds. Tolerance rtol 2e-4 (the library accumulates in float32). "
